@@ -136,6 +136,48 @@ func combineContext(c *Ctx) {
 			q.add("PROV", "otherwise the primary is returned unchanged", okp, "return value is the primary", r)
 		}
 	}
+	// the pre-check examines EVERY other context: the loop that tests other.Err() is left only through its
+	// header (all inspected) or by returning the cancelled result - never by a break into the wiring code
+	{
+		errs := an.AllInstrs(fn, func(in ssa.Instruction) bool {
+			call, ok := in.(*ssa.Call)
+			return ok && call.Call.IsInvoke() && call.Call.Method.Name() == "Err" && !isPrimary(call.Call.Value)
+		})
+		if q.need(errs, "PATH", "other.Err() pre-check") {
+			comp, cyc := P.SCC(fn)
+			cid := comp[errs[0].Block()]
+			ok := cyc[cid]
+			var header *ssa.BasicBlock
+			if ok {
+				for _, b := range fn.Blocks {
+					if comp[b] != cid {
+						continue
+					}
+					for _, sb := range b.Succs {
+						if comp[sb] == cid {
+							continue
+						}
+						// an exit edge: fine if it leads straight to a return/panic-only region, else it must be the header's
+						leadsOut := P.PathExists(fn, sb.Instrs[0], an.Is(main), nil, nil) || sb.Instrs[0] == main
+						if !leadsOut {
+							continue
+						}
+						if header == nil {
+							header = b
+						} else if header != b {
+							ok = false
+						}
+					}
+				}
+				if header != nil {
+					// the header is the block holding the range test (it dominates the Err() call)
+					ok = ok && header.Dominates(errs[0].Block())
+				}
+			}
+			q.add("PATH", "every other context is examined for prior cancellation", ok,
+				pickS(ok, "the pre-check loop is left towards the wiring code only through its header (all others inspected)", "the pre-check loop can be left early (e.g. a break after the first non-nil other): an already-cancelled other further down the list would not make the result already cancelled"), errs[0])
+		}
+	}
 	if stop := c.F("(stopCallbackSlice).Stop"); stop.ok() {
 		calls := an.AllInstrs(stop.fn, func(in ssa.Instruction) bool {
 			call, ok := in.(*ssa.Call)
